@@ -127,9 +127,11 @@ pub fn compare(a: &Flat, b: &Flat, sc: &Scale, slack_abs: f64, slack_step: f64) 
         let (s, slack) = match cls {
             Cls::E => (sc.e_an, slack_abs),
             Cls::Et(t) => (sc.e_t.get(t).copied().unwrap_or(sc.e_an), slack_step),
-            Cls::W => (sc.e_an * f, slack_abs * f),
+            // a weighted figure multiplies an energy by a factor or by a difference of factors (step B minus
+            // step A, delivered minus exported): up to |fA| + |fB| + |f_del| <= 3F per kWh of printed-precision slack
+            Cls::W => (sc.e_an * f, slack_abs * f * 4.0),
             Cls::Em2 => (sc.e_an / area, slack_abs / area),
-            Cls::Wm2 => (sc.e_an * f / area, slack_abs * f / area),
+            Cls::Wm2 => (sc.e_an * f / area, slack_abs * f * 4.0 / area),
             // the load-matching factor is a ratio of two declared quantities: once those lose printed
             // precision (C18) its change is not bounded by the slack, so it is not compared then
             Cls::Unit => (1.0, if slack_abs > 0.0 && k.contains("f_match") { f64::INFINITY } else { 0.0 }),
